@@ -624,6 +624,30 @@ def normalise(fn, world=None, modname=None, cls=None, primitives=(),
         # (`max(ends)` with ends = (a, b))
         from .unroll import fold_constants
         fold_constants(fn)
+    if any(isinstance(n, ast.Call) and any(
+            isinstance(a, ast.Starred) and isinstance(
+                a.value, (ast.Tuple, ast.List)) for a in n.args)
+            for n in ast.walk(fn)):
+        # f(*(a, b)) left behind by an unrolled loop over rows: f(a, b)
+        if not info["inlined"] and not aliases and not lift_values:
+            fn = acopy(fn)
+        for n in ast.walk(fn):
+            if isinstance(n, ast.Call) and any(
+                    isinstance(a, ast.Starred) and isinstance(
+                        a.value, (ast.Tuple, ast.List)) and not any(
+                            isinstance(e, ast.Starred)
+                            for e in a.value.elts) for a in n.args):
+                args = []
+                for a in n.args:
+                    if isinstance(a, ast.Starred) and isinstance(
+                            a.value, (ast.Tuple, ast.List)) and not any(
+                                isinstance(e, ast.Starred)
+                                for e in a.value.elts):
+                        args += list(a.value.elts)
+                    else:
+                        args.append(a)
+                n.args = args
+        ast.fix_missing_locations(fn)
     set_parents(fn)
     fn._parent = parent
     fn._norm_info = info
